@@ -15,7 +15,9 @@ class RopeArray:
     content of [0, n) followed by zero bytes where nothing was stored.
     """
 
-    def __init__(self, size):
+    def __init__(self, size=0):
+        if isinstance(size, float):
+            raise TypeError("cannot convert 'float' object to bytearray")      # what bytearray(8192.0) does
         self.size = size
         self.fill = 0
         self.content = Rope([])
